@@ -620,14 +620,20 @@ pub fn raw_ext_slice() {
 
 /// strict extension chain decoding + iteration to exhaustion
 pub fn ipv6_exts_strict() {
-    let t = Tight::<32>::new(any_le(32));
+    ipv6_exts_strict_n::<24>()
+}
+pub fn ipv6_exts_strict_16() {
+    ipv6_exts_strict_n::<16>()
+}
+pub fn ipv6_exts_strict_n<const N: usize>() {
+    let t = Tight::<N>::new(any_le(N));
     let s = t.slice();
     let start = IpNumber(any());
     match Ipv6ExtensionsSlice::from_slice(start, s) {
         Ok((e, _n, rest)) => {
             within!(s, rest);
             let n = touch_ipv6_exts(s, &e);
-            witness!(n >= 3, "ok_three_headers");
+            witness!(n >= 2, "ok_two_headers");
             // the chain and the rest tile the input
             assert!(e.slice().len() + rest.len() == s.len());
         }
@@ -772,9 +778,74 @@ crate::harnesses! {
     c01_ipv6_header_slice = ipv6_header_slice; unwind 4,
     c01_raw_ext_slice = raw_ext_slice; unwind 4,
     c01_ipv6_exts_strict = ipv6_exts_strict; unwind 6,
+    c01_ipv6_exts_strict_16 = ipv6_exts_strict_16; unwind 6,
     c01_ipv6_exts_lax = ipv6_exts_lax; unwind 6,
     c01_ipv6_slice = ipv6_slice; unwind 5,
     c01_lax_ipv6_slice = lax_ipv6_slice; unwind 5,
     c01_ip_slice = ip_slice; unwind 5,
     c01_lax_ip_slice = lax_ip_slice; unwind 5,
+}
+
+pub fn probe_iter_only() {
+    let data: [u8; 16] = any();
+    let t = Tight::<16>::from_bytes(&data);
+    let s = t.slice();
+    let start = IpNumber(any());
+    match Ipv6ExtensionsSlice::from_slice(start, s) {
+        Ok((e, _n, _rest)) => {
+            let mut n = 0usize;
+            let mut it = e.clone().into_iter();
+            while let Some(_x) = it.next() {
+                n += 1;
+            }
+            assert!(n <= 2);
+        }
+        Err(_) => {}
+    }
+}
+pub fn probe_decode_only() {
+    let data: [u8; 16] = any();
+    let t = Tight::<16>::from_bytes(&data);
+    let s = t.slice();
+    let start = IpNumber(any());
+    match Ipv6ExtensionsSlice::from_slice(start, s) {
+        Ok((e, _n, rest)) => {
+            assert!(e.slice().len() + rest.len() == s.len());
+        }
+        Err(_) => {}
+    }
+}
+pub fn probe_iter_touch_nowithin() {
+    let data: [u8; 16] = any();
+    let t = Tight::<16>::from_bytes(&data);
+    let s = t.slice();
+    let start = IpNumber(any());
+    match Ipv6ExtensionsSlice::from_slice(start, s) {
+        Ok((e, _n, _rest)) => {
+            let mut it = e.clone().into_iter();
+            while let Some(x) = it.next() {
+                match x {
+                    Ipv6ExtensionSlice::HopByHop(r)
+                    | Ipv6ExtensionSlice::Routing(r)
+                    | Ipv6ExtensionSlice::DestinationOptions(r) => { sink(r.next_header()); sink(r.payload().len()); }
+                    Ipv6ExtensionSlice::Fragment(f) => { sink(f.identification()); }
+                    Ipv6ExtensionSlice::Authentication(a) => { sink(a.spi()); sink(a.raw_icv().len()); }
+                }
+            }
+        }
+        Err(_) => {}
+    }
+}
+#[cfg(kani)]
+mod probes {
+    use super::*;
+    #[kani::proof]
+    #[kani::unwind(6)]
+    fn probe_d1() { probe_iter_only() }
+    #[kani::proof]
+    #[kani::unwind(6)]
+    fn probe_d2() { probe_decode_only() }
+    #[kani::proof]
+    #[kani::unwind(6)]
+    fn probe_d3() { probe_iter_touch_nowithin() }
 }
